@@ -1506,7 +1506,7 @@ _DKINDS = ['b64sub', 'b64drop', 'trunc', 'extend', 'alg', 'mismatch',
 
 
 def damage(draw, allow_imp: bool):
-    t = draw(S(_DKINDS + ['imp', 'imp', 'imp'] if allow_imp else _DKINDS))
+    t = draw(S(_DKINDS + ['imp'] if allow_imp else _DKINDS))
 
     if t in ('b64sub', 'b64drop'):
         d = {'t': t, 'i': draw(_POS)}
@@ -1618,10 +1618,9 @@ def kh_reference_strategy(tier: str):
     @st.composite
     def build(draw):
         host, addr, port = kh_query_st(draw)
-        # at most one of the shapes behind a known finding per file
-        quirk = draw(I(0, 19))
-        allow_imp = quirk == 18
-        non_ascii = quirk == 19
+        # the shape behind a known finding in few files only
+        non_ascii = draw(I(0, 19)) == 19
+        allow_imp = True
         lines = some(draw, lambda d: kh_line(d, host, addr, port,
                                              allow_imp=allow_imp,
                                              non_ascii=non_ascii),
@@ -1649,7 +1648,8 @@ def kh_keygen_strategy(tier: str):
         n = draw(I(1, max_lines))
         # every key is used once, so (marker, key) identifies a line
         keys = draw(st.permutations(list(range(NKEYS))))
-        lines = [kh_line(draw, host, '', port, key=keys[i], cidr=False)
+        lines = [kh_line(draw, host, '', port, key=keys[i], cidr=False,
+                         allow_imp=True)
                  for i in range(n)]
         return {'lines': lines, 'host': host, 'port': port}
 
@@ -1662,7 +1662,7 @@ def kh_metamorphic_strategy(tier: str):
     @st.composite
     def build(draw):
         host, addr, port = kh_query_st(draw)
-        allow_imp = draw(I(0, 11)) == 11
+        allow_imp = True
         lines = some(draw, lambda d: kh_line(d, host, addr, port, dmg_rate=9),
                      1, max_lines)
         kind = draw(S(['insert', 'insert', 'perm', 'negate', 'negate']))
@@ -1820,7 +1820,7 @@ def ak_reference_strategy(tier: str):
              'principals': _plist(draw, 0, True) if ca else None}
         # at most one of the shapes behind a known finding per file
         quirk = draw(I(0, 23))
-        allow_imp = quirk == 21
+        allow_imp = True
         non_ascii = quirk == 22
         kwcase = quirk == 23
         lines = some(draw, lambda d: ak_line(d, q, allow_imp, non_ascii,
